@@ -989,6 +989,16 @@ def minimise(console, init, ops, fail):
                 break
         if changed:
             continue
+        for i in range(len(s)):  # canonical characters: 'a' wherever the failure does not depend on the character
+            if s[i] != "a" and s[i] not in CONTROL:
+                budget -= 1
+                cand_i = dict(init, s=s[:i] + "a" + s[i + 1:])
+                f2 = still(cand_i, ops)
+                if f2:
+                    init, fail, changed = cand_i, f2, True
+                    break
+        if changed:
+            continue
         # simplify auxiliary texts / string arguments of the last operations
         for i in range(len(ops) - 1, -1, -1):
             for cand_op in _simpler(ops[i]):
@@ -1058,7 +1068,7 @@ def _seed_for(seed: int, idx: int) -> int:
 
 
 def _batch(args):
-    seed, start, count, max_ops = args
+    seed, start, count, max_ops, fixed = args
     console = make_console()
     counts: Dict[str, int] = {}
     opcount: Dict[str, int] = {}
@@ -1067,7 +1077,7 @@ def _batch(args):
     samples = []
     nops = 0
     for idx in range(start, start + count):
-        rng = random.Random(_seed_for(seed, idx))
+        rng = random.Random(_seed_for(seed if idx >= fixed else 0, idx))
         init, ops, fail, sigs = gen_history(console, rng, max_ops, counts, tame=idx % 4 != 0)
         nops += len(sigs) + 1
         for sg in sigs:
@@ -1161,7 +1171,8 @@ def run(tier: str = "quick", seed: int = 0) -> dict:
     max_ops = 12
     procs = min(16, os.cpu_count() or 2)
     per = 250 if tier == "quick" else 2000
-    jobs = [(seed, s, min(per, n_hist - s), max_ops) for s in range(0, n_hist, per)]
+    fixed = n_hist // 2  # the first half is the same for every seed (stable failure reports), the rest follows `seed`
+    jobs = [(seed, s, min(per, n_hist - s), max_ops, fixed) for s in range(0, n_hist, per)]
     nd = len(_directed())
     djobs = [(s, 400) for s in range(0, nd, 400)]
     ctx = mp.get_context("fork")
@@ -1218,7 +1229,9 @@ def run(tier: str = "quick", seed: int = 0) -> dict:
         "distinct_nontrivial": len(sigs),
         "rule": "a case is one operation applied to the real Text and to the reference model inside a history "
                 "(construction counts as one), followed by the comparisons; histories are generated from "
-                "random.Random(f(seed, index)), plus a fixed directed list of 1-2 step histories at the ends of the text; "
+                "random.Random(f(seed, index)) (the first half of the indices ignores the seed so that reports are stable; "
+                "3 of 4 histories avoid arguments that hit defects already reported on the pinned tree, so that long "
+                "histories are not cut short by them), plus a fixed directed list of 1-2 step histories at the ends of the text; "
                 "distinct_nontrivial = number of distinct operation-sequence signatures (operation names, continuation "
                 "pick/join, truncate overflow) among histories with at least two executed operations",
         "bound": f"{nh} histories ({nd} directed), <= {max_ops} operations each; initial strings <= 10 characters over "
